@@ -76,6 +76,7 @@ type Lemma struct {
 	E     *Expr
 	Where string
 	Induct string
+	Index  int
 }
 
 type Ghost struct {
@@ -90,6 +91,7 @@ type Specs struct {
 	Funs      map[string]*SpecFun
 	FunOrder  []string
 	Axioms    []*Lemma
+	IndLemmas []*Lemma
 	Lemmas    []*Lemma
 	Ghosts    map[string]*Ghost // key owner.field
 	Contracts map[string]*Contract
@@ -215,9 +217,13 @@ func (sp *Specs) LoadFile(path string) error {
 			}
 			sp.Funs[f.Name] = f
 			sp.FunOrder = append(sp.FunOrder, f.Name)
-		case strings.HasPrefix(flat, "axiom ") || strings.HasPrefix(flat, "lemma "):
+		case strings.HasPrefix(flat, "axiom ") || strings.HasPrefix(flat, "lemma ") || strings.HasPrefix(flat, "indlemma "):
 			isAx := strings.HasPrefix(flat, "axiom ")
+			isInd := strings.HasPrefix(flat, "indlemma ")
 			rest := flat[6:]
+			if isInd {
+				rest = flat[9:]
+			}
 			i := strings.Index(rest, "::")
 			if i < 0 {
 				return fmt.Errorf("%s: missing ::", where)
@@ -235,7 +241,12 @@ func (sp *Specs) LoadFile(path string) error {
 				return err
 			}
 			l.E = e
-			if isAx {
+			if isInd {
+				l.Induct = "rec"
+				l.Index = len(sp.IndLemmas)
+				sp.IndLemmas = append(sp.IndLemmas, l)
+				sp.Lemmas = append(sp.Lemmas, l)
+			} else if isAx {
 				sp.Axioms = append(sp.Axioms, l)
 			} else {
 				sp.Lemmas = append(sp.Lemmas, l)
